@@ -112,6 +112,26 @@ CHECKS = [
         'note': 'never-hangs is bounded progress (30 s / 120 s with stl); astronomically large constants and unbounded rep counts '
                 'are unbounded-work programs, confined to a reported-only class',
     },
+    {
+        'property_id': 'C13', 'level': 'exploration', 'design_ref': 'DESIGN.md 4 C13',
+        'technique': 'runtime monitoring: history-vs-fresh-process differential on output bytes (sha256 of .fjm and .fjd)',
+        'text': 'Histories of 1-13 assemble() calls in one process (corpus and generated programs at w=16/32/64, stl on/off, both '
+                'warning modes, failing inputs of every C14 error class, recursion depths 5..5000, the stl at widths where it does '
+                'not fit, the probe itself twice) are followed by a probe assembly whose .fjm and .fjd bytes must equal those '
+                'of the probe assembled in a fresh process, under several PYTHONHASHSEED values, another working directory and a '
+                'copy of the sources elsewhere.',
+        'note': 'observed at the files only; the parse cache is exercised cold, warm, warm for another width and warm for the other warning mode',
+    },
+    {
+        'property_id': 'C20', 'level': 'exploration', 'design_ref': 'DESIGN.md 4 C20',
+        'technique': 'runtime monitoring: three-route differential (fj one-step / fj --asm + --run / Python API) on file bytes, stdout and termination; audit-hook capture of the temporary out.fjm',
+        'text': 'Corpus programs with their stdin files and generated primitive programs (also split over two files) are pushed '
+                'through the fj one-step flow (with -o and, captured by a sys.addaudithook wrapper around the real main(), '
+                'without -o), the fj --asm -o / --run two-step flow and flipjump.assemble/run under random option '
+                'combinations; .fjm and .fjd bytes, program stdout and termination cause/op count must agree, and the defaults '
+                '(width 64, version 3 with -o, 1 without, stl included) are read from the produced headers.',
+        'note': 'the API has no lzma-preset parameter, so version-3 bytes are compared with the API only at the default preset',
+    },
 ]
 
 _TODO = 'check not built yet in this session (work in progress; see DESIGN.md for the planned monitor)'
